@@ -233,10 +233,57 @@ func execStep(mgr *server.Manager, cmd [][]byte) (out string) {
 	}
 }
 
+// Argument shape.  A command built from hex-decoded arguments hands the executors fresh slices
+// of exact capacity; the server never sees those: its arguments come out of resp.ParseStream, where
+// every bulk string is a slice of a make(bulkLen+2) buffer whose two spare bytes hold "\r\n".
+// A case marked "wire" (4th field of its CASE line) or every case when VERIF_ARGSHAPE=wire is set
+// gets its commands encoded as RESP arrays and decoded again by the real resp.ParseStream +
+// ArrayData.ToCommand() (one parser per connection id, fed through an io.Pipe, as a socket would),
+// so executors that keep, extend or re-slice an argument are exercised on the shape they really get.
+type wireConn struct {
+	mu sync.Mutex
+	pw *io.PipeWriter
+	ch <-chan *resp.ParsedRes
+}
+
+func newWireConn() *wireConn {
+	pr, pw := io.Pipe()
+	return &wireConn{pw: pw, ch: resp.ParseStream(context.Background(), pr)}
+}
+
+// shape returns the command as the parser delivers it; ok=false when the parser did not return it
+func (wc *wireConn) shape(cmd [][]byte) ([][]byte, bool) {
+	if len(cmd) == 0 {
+		return cmd, true
+	}
+	wc.mu.Lock()
+	defer wc.mu.Unlock()
+	if _, err := wc.pw.Write(encodeCmd(cmd)); err != nil {
+		return cmd, false
+	}
+	res, open := <-wc.ch
+	if !open || res == nil || res.Err != nil {
+		return cmd, false
+	}
+	arr, isArr := res.Data.(*resp.ArrayData)
+	if !isArr {
+		return cmd, false
+	}
+	return arr.ToCommand(), true
+}
+
+func (wc *wireConn) close() {
+	wc.pw.Close()
+	for range wc.ch {
+	}
+}
+
+var forceWire = os.Getenv("VERIF_ARGSHAPE") == "wire"
+
 // memrun <progfile> <outfile> <scratchdir>
 // program file:
 //
-//	CASE <name> <dbs>
+//	CASE <name> <dbs> [wire]
 //	C <conn> <sleep_ms> <hexarg> <hexarg> ...     (sleep happens before the command)
 //	BG <conn> <delay_ms> <hexarg> ...           (issued by another goroutine delay_ms after the next C command starts)
 //	DUMP
@@ -283,6 +330,34 @@ func memRunCmd(args []string) error {
 		}
 		return v
 	}
+	wire := false
+	wires := map[string]*wireConn{}
+	closeWires := func() {
+		for _, wc := range wires {
+			wc.close()
+		}
+		wires = map[string]*wireConn{}
+	}
+	defer closeWires()
+	var wiresMu sync.Mutex
+	// shaped returns the arguments in the shape of this case; "" or an error marker
+	shaped := func(conn string, cmd [][]byte) ([][]byte, string) {
+		if !wire {
+			return cmd, ""
+		}
+		wiresMu.Lock()
+		wc, ok := wires[conn]
+		if !ok {
+			wc = newWireConn()
+			wires[conn] = wc
+		}
+		wiresMu.Unlock()
+		c2, ok := wc.shape(cmd)
+		if !ok {
+			return cmd, "!WIREPARSE"
+		}
+		return c2, ""
+	}
 	progress, _ := os.Create(args[1] + ".progress")
 	defer progress.Close()
 	for sc.Scan() {
@@ -297,6 +372,8 @@ func memRunCmd(args []string) error {
 			cfg := setupServer(dbs, args[2])
 			mgr = server.NewManager(cfg)
 			views = map[string]*server.Manager{}
+			closeWires()
+			wire = forceWire || (len(fs) > 3 && fs[3] == "wire")
 			fmt.Fprintf(w, "CASE %s %d\n", fs[1], dbs)
 			fmt.Fprintf(w, "WD %d\n", watchdogMs)
 			progress.Seek(0, 0)
@@ -329,13 +406,22 @@ func memRunCmd(args []string) error {
 					for _, h := range b.args {
 						bc = append(bc, unhx(h))
 					}
+					bc, werr := shaped(b.conn, bc)
 					bgAt[i] = time.Now()
-					bgOut[i] = execStep(bv, bc)
+					if werr != "" {
+						bgOut[i] = werr
+					} else {
+						bgOut[i] = execStep(bv, bc)
+					}
 					bgEnd[i] = time.Now()
 				}(i, b)
 			}
+			cmd, werr := shaped(fs[1], cmd)
 			now := time.Now()
-			out := execStep(viewOf(fs[1]), cmd)
+			out := werr
+			if werr == "" {
+				out = execStep(viewOf(fs[1]), cmd)
+			}
 			end := time.Now()
 			wg.Wait()
 			order := make([]int, len(pendingBG))
